@@ -229,6 +229,10 @@ def class_of(v):
         return v.pycls or int
     if isinstance(v, SBool):
         return bool
+    if isinstance(v, SByteArray):
+        return bytearray
+    if isinstance(v, SBytes):
+        return bytes
     return type(v)
 
 
@@ -474,6 +478,17 @@ class SBytes:
 
     def __repr__(self):
         return "SBytes(%r)" % (self.items,)
+
+
+class SByteArray(SBytes):
+    """bytearray: a MUTABLE byte sequence of concrete length whose elements may be symbolic"""
+    __slots__ = ()
+
+    def __repr__(self):
+        return "SByteArray(%r)" % (self.items,)
+
+    def snapshot(self):
+        return mk_bytes(list(self.items))
 
 
 def mk_bytes(items):
